@@ -1279,3 +1279,31 @@ mod d31 {
 		assert_eq!(left, 0, "D31: {left} immutable memtable(s) stay queued with no wake-up pending (flushes run: {})", core.flushes.load(Ordering::SeqCst));
 	}
 }
+
+// D32: restore hard-links the checkpoint's WAL segment into the live directory; the store then appends to that inode, i.e.
+// it writes into the checkpoint.  Restoring the same checkpoint a second time brings back commits made after the first
+// restore.
+#[tokio::test(flavor = "multi_thread")]
+async fn d32_restore_hard_links_the_wal_into_the_checkpoint() {
+	let d = td();
+	let ck = td();
+	let opts = mk_opts(d.path().to_path_buf(), |_| {});
+	let tree = Tree::new(Arc::clone(&opts)).unwrap();
+	put(&tree, b"a", b"1").await;
+	tree.create_checkpoint(ck.path()).unwrap();
+	{
+		// the checkpoint is inspected once by opening it as a store (read only use), then closed
+		let ck_opts = mk_opts(ck.path().to_path_buf(), |_| {});
+		let ck_tree = Tree::new(ck_opts).unwrap();
+		assert_eq!(ck_tree.begin().unwrap().get(b"a").unwrap().as_deref(), Some(&b"1"[..]));
+		ck_tree.close().await.unwrap();
+	}
+	let wal_bytes_before: u64 = std::fs::read_dir(ck.path().join("wal")).map(|rd| rd.filter_map(|e| e.ok()).map(|e| e.metadata().unwrap().len()).sum()).unwrap_or(0);
+	tree.restore_from_checkpoint(ck.path()).unwrap();
+	put(&tree, b"after-restore", b"x").await;
+	tree.flush_wal(true).unwrap();
+	let wal_bytes_after: u64 = std::fs::read_dir(ck.path().join("wal")).map(|rd| rd.filter_map(|e| e.ok()).map(|e| e.metadata().unwrap().len()).sum()).unwrap_or(0);
+	assert_eq!(wal_bytes_before, wal_bytes_after, "D32: a commit made after the restore was written into the CHECKPOINT's wal directory");
+	tree.restore_from_checkpoint(ck.path()).unwrap();
+	assert_eq!(tree.begin().unwrap().get(b"after-restore").unwrap(), None, "D32: second restore of the same checkpoint brings back a post-restore commit");
+}
